@@ -6,7 +6,17 @@
 #ifndef VH_REPO
 #define VH_REPO "/repo"
 #endif
+#include <stdlib.h>
+#include <string.h>
+/* counting allocator: every malloc/free made by the library (this translation unit) is counted */
+static unsigned long VH_MALLOCS = 0, VH_FREES = 0;
+static void *vh_counting_malloc(size_t n) { void *p = malloc(n); if (p) VH_MALLOCS++; return p; }
+static void vh_counting_free(void *p) { if (p) VH_FREES++; free(p); }
+#define malloc vh_counting_malloc
+#define free vh_counting_free
 #include "../../repo/src/secp256k1.c"
+#undef malloc
+#undef free
 #include "../../repo/include/secp256k1_recovery.h"
 #include "../../repo/include/secp256k1_extrakeys.h"
 #include "../../repo/include/secp256k1_schnorrsig.h"
